@@ -521,6 +521,13 @@ def containment_pair(rng) -> Dict[str, Any]:  # noqa: C901
         else:
             right = [T({v: sign * co}, big)]
             left = left + bounds(rng, v, -3.0, 3.0)     # contained with a wide margin
+            if rng.random() < 0.5:
+                # ... next to a row with a small constant that the left side misses (or meets) by a moderate amount:
+                # the verdict on one row must not depend on the size of another row's constant
+                u = rng.choice(vs)
+                left = left + bounds(rng, u, -3.0, 3.0)
+                d = rng.choice([0.05, 0.25, 0.4, 1.0, -0.25, 0.0])
+                right.insert(rng.randint(0, 1), T({u: 1.0}, 3.0 - d) if rng.random() < 0.5 else T({u: -1.0}, 3.0 - d))
         return {"kind": "list", "family": fam, "style": "int", "left": left, "right": right}
     style = rng.choice(["int", "int", "dyadic", "int", "decimal", "float", "wide"])
     if fam in ("near",):
@@ -631,12 +638,18 @@ def contract_pair(rng) -> Dict[str, Any]:
         ins2 = list(ins)
         outs2 = list(outs)
         r = rng.random()
-        if r < 0.35:
+        if r < 0.25:
             ins2 = ins2 + ["zz"]
-        elif r < 0.7:
+        elif r < 0.5:
             outs2 = outs2 + ["zz"]
-        else:
+        elif r < 0.7:
             outs2 = ["q" + o for o in outs2]
+        elif r < 0.85 or len(outs2) < 2:
+            # the same names, two of them in exchanged roles
+            ins2[0], outs2[0] = outs2[0], ins2[0]
+        else:
+            # the same names, one output of the first contract is an input of the second
+            ins2 = ins2 + [outs2.pop()]
         c2 = rcontract(rng, ins2, outs2, style)
     return {"kind": "contract", "family": fam, "style": style, "c1": c1, "c2": c2}
 
@@ -843,6 +856,20 @@ def merge_case(rng) -> Dict[str, Any]:
             if common:
                 t = rng.choice(common)
                 c2[key].append(rng.choice([dict(c=dict(t["c"]), k=t["k"]), scale(t, 2.0), weaken(rng, t, style)]))
+    elif r < 0.45:
+        # what one operand assumes about the inputs, the other one guarantees in the very same words (a guarantee may
+        # speak about inputs only): merging still has to assume it
+        src, dst = (c1, c2) if rng.random() < 0.5 else (c2, c1)
+        cand = [t for t in src["a"] if set(t["c"]) <= set(dst["in"])]
+        if not cand:
+            shared = [v for v in src["in"] if v in dst["in"]]
+            if shared:
+                t = T({shared[0]: rng.choice([1.0, -1.0])}, const(rng, style, 3, 9))
+                src["a"].append(t)
+                cand = [t]
+        if cand:
+            t = rng.choice(cand)
+            dst["g"].insert(rng.randint(0, len(dst["g"])), dict(c=dict(t["c"]), k=t["k"]))
     dup_noise(rng, c1)
     dup_noise(rng, c2)
     return {"family": fam, "style": style, "c1": c1, "c2": c2}
